@@ -389,6 +389,11 @@ def gen_scenario(seed: int, stream: str = "shocked", **over) -> dict:
         if rng.random() < 0.3:
             cfg["dt"] = rng.choice([2, 3, 5])
             sc["T"] = sc["T"] * cfg["dt"]
+            cfg["alpha_tau"] = max(cfg["alpha_tau"], cfg["dt"])
+            if isinstance(cfg.get("restoration_tau"), dict):
+                cfg["restoration_tau"] = {k_: max(v_, cfg["dt"]) for k_, v_ in cfg["restoration_tau"].items()}
+            elif cfg.get("restoration_tau") is not None:
+                cfg["restoration_tau"] = max(cfg["restoration_tau"], cfg["dt"])
         return sc
     # step lengths other than 1 with events: occurrences and durations are temporal units and need not fall on
     # the grid of simulated times; characteristic times need not be multiples of the step
@@ -397,6 +402,14 @@ def gen_scenario(seed: int, stream: str = "shocked", **over) -> dict:
     elif stream not in ("starve",) and rng.random() < 0.25:
         cfg["dt"] = rng.choice([2, 3, 5, 7])
     if cfg["dt"] != 1:
+        # characteristic times of the model are at least one step (the properties quantify over tau >= 1 step: with a
+        # step longer than alpha_tau or the restoration time the per-step rates dt / tau exceed 1, the explicit scheme
+        # overshoots its targets and amplifies rounding noise by a constant factor per step — outside the domain)
+        cfg["alpha_tau"] = max(cfg["alpha_tau"], cfg["dt"])
+        if isinstance(cfg.get("restoration_tau"), dict):
+            cfg["restoration_tau"] = {k_: max(v_, cfg["dt"]) for k_, v_ in cfg["restoration_tau"].items()}
+        elif cfg.get("restoration_tau") is not None:
+            cfg["restoration_tau"] = max(cfg["restoration_tau"], cfg["dt"])
         T = T * cfg["dt"] if T * cfg["dt"] <= 90 else T * 2
         T -= T % cfg["dt"]
         sc["T"] = T
